@@ -1131,19 +1131,19 @@ theorem polar_lock_one_speaker_quad_partial
   rw [scatter_quad_unit norm.length a b c d' dab dac dad dbc dbd dcd _ hlt, hchan]
   rfl
 
-/-- **`_partial`: polar lock on the regenerated C05 tables — what exactly is left.** With the concrete
+/-- **`_partial`: polar lock on the regenerated C05 tables, the panner's exactness as a hypothesis.** With the concrete
 point-source panner of C01/C05 (`GainCalc.pspHandle l`: regenerated region table, first accepting
 region, downmix / stereo wrappers, quad pan values by the closed form `quadRoot`) plugged into
-`renderPolarLock`, "exactly one loudspeaker, the nearest" follows from the single *remaining
-hypothesis* `hvertex`: at the position of the locked loudspeaker `k` that panner answers exactly
-`e_k`.  C05 proves that it answers *something* (`pspHandle_total_layouts`) and that a triplet / quad
-having `k` as a vertex answers `e_k` (`triplet_exact_at_vertex`, `quad_corner`); not proved: that
-every region tried *before* the first region containing `k` rejects that position (for QuadRegions
-this is a sign statement about the in general irrational roots of two quadratics per region; on
-0+5+0 and 0+7+0 every loudspeaker's first accepting region is a quad preceded by other quads), that `quadRoot` evaluates to the corner
-value 0/1 there (rational square discriminant), and that the downmix of the virtual loudspeakers
-keeps `e_k`.  The real float code leaves ~1e-17 residues on other loudspeakers at these positions
-(search tolerance 1e-9). -/
+`renderPolarLock`, "exactly one loudspeaker, the nearest" follows from the hypothesis `hvertex`: at the
+position of the locked loudspeaker `k` that panner answers exactly `e_k`.  `hvertex` is no longer open:
+C05 proves it for every loudspeaker of the ten regenerated tables (`PointSource.pspHandle_exact_at_speaker_layouts`:
+every region tried before the first region containing `k` rejects that position, that region answers `e_k`,
+the downmix of the virtual loudspeakers keeps `e_k`), and section 12 plugs it in
+(`pspHandle_exact_at_norm`, `polar_lock_one_speaker_layouts`, `polar_lock_one_speaker_layouts_tables`).  This
+theorem is kept for a table `l` outside the ten nominal ones.  What it does NOT model: the real `pan` is
+`extent_pan(position, 0, 0, 0)` = `PolarExtentHandler.handle` AROUND the point-source panner
+(`GainCalc.polarPointPan`), here replaced by the bare point-source panner; and the real float code leaves
+~1e-17 residues on other loudspeakers at these positions (search tolerance 1e-9). -/
 theorem polar_lock_one_speaker_layouts_partial (l : PointSource.RawLayout)
     (fuel : Nat) (spks : List (Spk ℝ)) (norm : List (P3 ℝ)) (prio : List Nat)
     (groups : List (List (List Nat))) (zones : List (Zone ℝ)) (p : P3 ℝ)
@@ -1532,5 +1532,46 @@ example (gain diffuse : ℝ) :
     4 _ _ _ [] ⟨0, 1, 0⟩ (some none) gain diffuse _ 2 d f hg h (isExcl_replicate_false 5 2) (by decide +kernel)
   rw [hlen] at hd
   exact ⟨d, f, h, hd⟩
+
+/-- **The same with the layout's OWN regenerated priority list and priority groups** (`L.prio`, `L.groups`: what the
+real handlers are built with), so that no hypothesis about `prio` / `groups` is left: `groupsOK` and "the first group
+of channel `k` is `[k]`" come from the table obligation `tables_groups_ok`, `L.prio` has one entry per loudspeaker
+(`prio.getD` in `NearestByRule` never reads the default).  `0 ≤ diffuse ≤ 1` is the range of the ADM parameter; outside
+it `Real.sqrt` of a negative number is 0 whereas numpy gives NaN.  Still substituted: `pan` is the bare point-source
+panner `GainCalc.pspHandle l`, not `PolarExtentHandler.handle` around it (`GainCalc.polarPointPan`). -/
+theorem polar_lock_one_speaker_layouts_tables (i : Nat) (L : Gen.C13.Layout) (l : PointSource.RawLayout)
+    (hL : Gen.C13.layouts[i]? = some L) (hl : Gen.C05.layouts[i]? = some l)
+    (fuel : Nat) (spks : List (Spk ℝ)) (zones : List (Zone ℝ)) (p : P3 ℝ)
+    (lock : Option (Option ℝ)) (gain diffuse : ℝ) (_hd0 : 0 ≤ diffuse) (_hd1 : diffuse ≤ 1)
+    (zmask : List Bool) (k : Nat) (d f : List ℝ)
+    (h : renderPolarLock fuel spks ((L.norm.map p3Of).map castP3) L.prio L.groups zones
+      (fun q => GainCalc.pspHandle l (vec3 q)) p lock gain diffuse = some (zmask, .locked k, (d, f)))
+    (hne : isExcl zmask k = false) :
+    L.prio.length = ((L.norm.map p3Of).map castP3).length ∧
+    k < ((L.norm.map p3Of).map castP3).length ∧
+    d = (unitR ((L.norm.map p3Of).map castP3).length k).map (fun v => v * gain * Real.sqrt (1 - diffuse)) ∧
+    f = (unitR ((L.norm.map p3Of).map castP3).length k).map (fun v => v * gain * Real.sqrt diffuse) ∧
+    ∃ maxD, lock = some maxD ∧
+      NearestByRule false ((L.norm.map p3Of).map castP3) L.prio
+        (List.replicate ((L.norm.map p3Of).map castP3).length false) p maxD k := by
+  have hmem : L ∈ Gen.C13.layouts := List.mem_of_getElem? hL
+  have ht := tables_groups_ok
+  rw [List.all_eq_true] at ht
+  have h1 := ht L hmem
+  have ht2 := tables_lock_ok
+  rw [List.all_eq_true] at ht2
+  have h2 := ht2 L hmem
+  simp only [Bool.and_eq_true, beq_iff_eq, List.all_eq_true, List.mem_range] at h1 h2
+  obtain ⟨⟨⟨⟨⟨hg, _⟩, _⟩, _⟩, hprio⟩, hhead⟩ := h1
+  have hn : ((L.norm.map p3Of).map castP3).length = L.n := by simp [h2.1.2]
+  obtain ⟨hlk, _⟩ := renderPolarLock_some fuel spks _ L.prio L.groups zones _ p lock gain diffuse zmask _ (d, f) h
+  obtain ⟨hk, _⟩ := lock_index_valid false _ L.prio _ p lock k hlk.symm
+  refine ⟨by rw [hprio, hn], ?_⟩
+  exact polar_lock_one_speaker_layouts i L l hL hl fuel spks L.prio L.groups zones p lock gain diffuse zmask k d f
+    (by rw [hn]; exact hg) h hne (hhead k (by rw [← hn]; exact hk))
+
+/-- non-vacuity: the hypotheses of `polar_lock_one_speaker_layouts_tables` are those of the `example` above (0+5+0, which
+uses `L.prio`, `L.groups` already) plus `0 ≤ diffuse ≤ 1`, e.g. `diffuse = 1/2` -/
+example : (0 : ℝ) ≤ 1 / 2 ∧ (1 / 2 : ℝ) ≤ 1 := by norm_num
 
 end Earverif.C13
